@@ -97,6 +97,12 @@ var lazyPreamble = []struct {
 		"(declare-fun ix (Int Int) Int)",
 		"(assert (forall ((o Int) (j Int)) (! (= (ix o j) (+ o j)) :pattern ((ix o j)))))",
 	}},
+	{"deepEqual", []string{
+		"(declare-fun deepEqual (Int Int) Bool)",
+		"(assert (forall ((a Int)) (! (deepEqual a a) :pattern ((deepEqual a a)))))",
+		"(assert (forall ((a Int) (b Int)) (! (= (deepEqual a b) (deepEqual b a)) :pattern ((deepEqual a b)))))",
+		"(assert (forall ((a Int) (b Int) (c Int)) (! (=> (and (deepEqual a b) (deepEqual b c)) (deepEqual a c)) :pattern ((deepEqual a b) (deepEqual b c)))))",
+	}},
 	{"bitor", []string{"(declare-fun bitor (Int Int) Int)"}},
 	{"bitxor", []string{"(declare-fun bitxor (Int Int) Int)"}},
 	{"bitandnot", []string{"(declare-fun bitandnot (Int Int) Int)"}},
